@@ -486,3 +486,253 @@ pub fn active_connection_phase(ctx: &Ctx, acc: &Accum, quiet_only: bool) -> Opti
     }
     Some(EXIT_OK)
 }
+
+
+// ------------------------------------------------------------------ quit, then more requests, then an abortive close
+
+/// `[set a][quit|quitq][set b]` in one segment followed at once by an abortive close (RST). Whatever the
+/// transport does, nothing received after the quit may be executed (C12); the request before it is
+/// executed at most once.
+pub fn quit_then_reset_phase(ctx: &Ctx, acc: &Accum) -> Option<i32> {
+    use std::io::Write;
+    for workers in [0usize, 2] {
+        let server = match netpipe::start_server(ServerOpts { workers, ..ServerOpts::default() }) {
+            Ok(s) => s,
+            Err(_) => continue,
+        };
+        let n = if ctx.quick() { 60 } else { 400 };
+        for i in 0..n {
+            let quiet = i % 2 == 0;
+            let mut s = vec![];
+            wire::store(wire::SETQ, format!("before{}", i).as_bytes(), b"1", 0, 0, 1, 0).write_to(&mut s);
+            wire::simple(if quiet { wire::QUITQ } else { wire::QUIT }, 2).write_to(&mut s);
+            wire::store(wire::SET, format!("after{}", i).as_bytes(), b"x", 0, 0, 3, 0).write_to(&mut s);
+            wire::counter(wire::INCR, b"afterctr", 1, 1, 0, 4, 0).write_to(&mut s);
+            if let Ok(c) = Client::connect(server.port) {
+                let _ = c.sock.set_nonblocking(false);
+                let mut c = c;
+                let _ = c.sock.write_all(&s);
+                if i % 3 != 0 {
+                    c.reset_close();
+                } else {
+                    c.close();
+                }
+            }
+        }
+        // let the server finish with every connection: a sentinel connection after them, then a settle loop
+        let mut last = (0usize, 0usize);
+        for _ in 0..50 {
+            std::thread::sleep(Duration::from_millis(20));
+            let after = (0..n).filter(|i| server.side_get(format!("after{}", i).as_bytes()).is_some()).count() + server.side_get(b"afterctr").is_some() as usize;
+            let before = (0..n).filter(|i| server.side_get(format!("before{}", i).as_bytes()).is_some()).count();
+            if (after, before) == last && before > 0 {
+                break;
+            }
+            last = (after, before);
+        }
+        acc.record_enum(hash_of(&("quit_then_reset", workers)), true, &["quit_then_reset"], || json!({"workers": workers, "connections": n}));
+        if last.0 > 0 {
+            let fi = FailInfo {
+                clause: "executed_after_quit".into(),
+                msg: format!(
+                    "[runtime workers {}] {} connections each sent [setq before][quit/quitq][set after][incr] in one segment and closed abortively: {} requests received after a quit were executed",
+                    workers, n, last.0
+                ),
+                signature: "executed_after_quit".into(),
+                detail: json!({"scenario": "quit_then_reset", "workers": workers}),
+            };
+            report_violation(ctx, "quit_then_reset", &json!({"workers": workers}), &fi);
+            return Some(EXIT_VIOLATION);
+        }
+    }
+    Some(EXIT_OK)
+}
+
+// ------------------------------------------------------------------ a large answer backlog followed by quit
+
+/// `[get big] x n [quit]` read late: every answer and the quit's answer arrive, then a clean EOF.
+pub fn quit_after_backlog_phase(ctx: &Ctx, acc: &Accum) -> Option<i32> {
+    use std::io::Write;
+    let limit = 1u32 << 20;
+    for workers in [0usize, 2] {
+        let server = match netpipe::start_server(ServerOpts { item_limit: limit, workers, ..ServerOpts::default() }) {
+            Ok(s) => s,
+            Err(_) => continue,
+        };
+        let vlen = 256usize << 10;
+        let ngets = if ctx.quick() { 12 } else { 24 };
+        let value = crate::sym::patterned(vlen, 0x47);
+        let mut c = match Client::connect(server.port) {
+            Ok(c) => c,
+            Err(_) => continue,
+        };
+        let mut req = vec![];
+        wire::store(wire::SET, b"qb", &value, 5, 0, 1, 0).write_to(&mut req);
+        let _ = c.send_chunk(&req, Duration::from_secs(20));
+        if !c.read_until(Duration::from_secs(20), |c| c.has_opaque(1)) {
+            continue;
+        }
+        let mut pipe = vec![];
+        for i in 0..ngets {
+            wire::get(wire::GET, b"qb", 100 + i as u32).write_to(&mut pipe);
+        }
+        wire::simple(wire::QUIT, 999).write_to(&mut pipe);
+        let _ = c.sock.set_nonblocking(false);
+        if c.sock.write_all(&pipe).is_err() {
+            continue;
+        }
+        std::thread::sleep(Duration::from_millis(400));
+        let closed = c.read_to_eof(Duration::from_secs(30));
+        let gets = c.resps.iter().filter(|r| r.opaque >= 100 && r.opaque < 999 && r.status == 0 && r.value == value).count();
+        let quit_ok = c.resps.iter().any(|r| r.opaque == 999 && r.status == 0);
+        acc.record_enum(hash_of(&("quit_after_backlog", workers)), true, &["quit_after_backlog"], || json!({"workers": workers, "gets": ngets, "value_bytes": vlen}));
+        let (eof, reset, mal) = (c.eof, c.reset, c.malformed.clone());
+        c.reset_close();
+        if gets != ngets || !quit_ok || !closed || reset || mal.is_some() {
+            let fi = FailInfo {
+                clause: "answers_lost_at_quit".into(),
+                msg: format!(
+                    "[runtime workers {}] {} pipelined gets of a {} byte value followed by quit, read 400 ms later: {} intact get answers (expected {}), quit answered: {}, connection ended with eof={} reset={} (expected a clean end of stream after the answers){}",
+                    workers, ngets, vlen, gets, ngets, quit_ok, eof, reset, mal.map(|m| format!(", stream unparseable: {}", m)).unwrap_or_default()
+                ),
+                signature: "answers_lost_at_quit".into(),
+                detail: json!({"scenario": "quit_after_backlog", "workers": workers}),
+            };
+            report_violation(ctx, "quit_after_backlog", &json!({"workers": workers}), &fi);
+            return Some(EXIT_VIOLATION);
+        }
+    }
+    Some(EXIT_OK)
+}
+
+// ------------------------------------------------------------------ fire and forget
+
+/// A client writes thousands of requests and closes its sending side at once, without reading. Every
+/// completely sent request is executed exactly once - whether loud or quiet opcodes are used.
+pub fn fire_and_forget_phase(ctx: &Ctx, acc: &Accum, prop: &str) -> Option<i32> {
+    use std::io::Write;
+    let n = if ctx.quick() { 2500usize } else { 10_000 };
+    for workers in [0usize, 2] {
+        for quiet in [true, false] {
+            let server = match netpipe::start_server(ServerOpts { workers, ..ServerOpts::default() }) {
+                Ok(s) => s,
+                Err(_) => continue,
+            };
+            let mut s = vec![];
+            for i in 0..n {
+                wire::store(if quiet { wire::SETQ } else { wire::SET }, format!("ff{}", i).as_bytes(), b"v", 0, 0, i as u32, 0).write_to(&mut s);
+                if i % 10 == 0 {
+                    wire::counter(if quiet { wire::INCRQ } else { wire::INCR }, b"ffctr", 1, 1, 0, 0x7000_0000 + i as u32, 0).write_to(&mut s);
+                }
+            }
+            let mut c = match Client::connect(server.port) {
+                Ok(c) => c,
+                Err(_) => continue,
+            };
+            // write everything, reading concurrently only as much as needed not to dead-lock on loud answers
+            let _ = c.sock.set_nonblocking(true);
+            let mut off = 0usize;
+            let t0 = std::time::Instant::now();
+            while off < s.len() && t0.elapsed() < Duration::from_secs(30) {
+                match c.sock.write(&s[off..]) {
+                    Ok(k) => off += k,
+                    Err(e) if e.kind() == std::io::ErrorKind::WouldBlock => {
+                        c.read_available();
+                        c.rbuf.clear();
+                        std::thread::sleep(Duration::from_micros(100));
+                    }
+                    Err(_) => break,
+                }
+            }
+            let _ = c.sock.set_nonblocking(false);
+            c.half_close();
+            let _ = c.read_to_eof(Duration::from_secs(30));
+            c.close();
+            // settle
+            let mut stored = 0usize;
+            for _ in 0..100 {
+                let now = (0..n).filter(|i| server.side_get(format!("ff{}", i).as_bytes()).is_some()).count();
+                if now == stored && now > 0 {
+                    break;
+                }
+                stored = now;
+                std::thread::sleep(Duration::from_millis(20));
+            }
+            let ctr = server.side_get(b"ffctr").map(|r| String::from_utf8_lossy(&r.value).to_string()).unwrap_or_default();
+            let expect_ctr = ((n + 9) / 10).to_string();
+            acc.record_enum(hash_of(&("fire_and_forget", workers, quiet)), true, &["fire_and_forget"], || json!({"workers": workers, "quiet": quiet, "requests": n}));
+            if off == s.len() && (stored != n || ctr != expect_ctr) {
+                let fi = FailInfo {
+                    clause: "complete_requests_dropped".into(),
+                    msg: format!(
+                        "[runtime workers {}, {} opcodes] a client wrote {} sets and {} increments, half-closed at once and never waited: {} sets are stored and the counter is {:?} (expected {} and {})",
+                        workers,
+                        if quiet { "quiet" } else { "loud" },
+                        n,
+                        (n + 9) / 10,
+                        stored,
+                        ctr,
+                        n,
+                        expect_ctr
+                    ),
+                    signature: "complete_requests_dropped".into(),
+                    detail: json!({"scenario": "fire_and_forget", "workers": workers, "quiet": quiet}),
+                };
+                report_violation(ctx, "fire_and_forget", &json!({"workers": workers, "quiet": quiet}), &fi);
+                return Some(EXIT_VIOLATION);
+            }
+        }
+    }
+    let _ = prop;
+    Some(EXIT_OK)
+}
+
+// ------------------------------------------------------------------ a silent peer does not block others
+
+/// One client connects and says nothing. Later clients must be served all the same.
+pub fn silent_peer_phase(ctx: &Ctx, acc: &Accum) -> Option<i32> {
+    use std::io::Write;
+    for (workers, listeners) in [(0usize, 1usize), (2, 1), (0, 3)] {
+        let server = match netpipe::start_server(ServerOpts { workers, listeners, conn_limit: 16, ..ServerOpts::default() }) {
+            Ok(s) => s,
+            Err(_) => continue,
+        };
+        let mut silent = vec![];
+        for _ in 0..3 {
+            if let Ok(c) = Client::connect(server.port) {
+                silent.push(c);
+            }
+        }
+        std::thread::sleep(Duration::from_millis(50));
+        let mut served = 0;
+        let total = 6;
+        for i in 0..total {
+            if let Ok(mut c) = Client::connect(server.port) {
+                let _ = c.sock.set_nonblocking(false);
+                let _ = c.sock.write_all(&wire::simple(wire::NOOP, 50 + i).bytes());
+                if c.read_until(Duration::from_secs(4), |c| c.has_opaque(50 + i)) {
+                    served += 1;
+                }
+                c.reset_close();
+            }
+        }
+        acc.record_enum(hash_of(&("silent_peer", workers, listeners)), true, &["silent_peer"], || json!({"workers": workers, "listeners": listeners}));
+        for c in silent {
+            c.reset_close();
+        }
+        if served != total {
+            let fi = FailInfo {
+                clause: "blocked_by_silent_peer".into(),
+                msg: format!(
+                    "[runtime workers {}, {} listener thread(s), connection limit 16] three clients connected and stayed silent; of {} later clients only {} were answered within 4 s: a connection that sends nothing blocks others",
+                    workers, listeners, total, served
+                ),
+                signature: "blocked_by_silent_peer".into(),
+                detail: json!({"scenario": "silent_peer", "workers": workers, "listeners": listeners}),
+            };
+            report_violation(ctx, "silent_peer", &json!({"workers": workers, "listeners": listeners}), &fi);
+            return Some(EXIT_VIOLATION);
+        }
+    }
+    Some(EXIT_OK)
+}
